@@ -13,6 +13,36 @@ def rscalar(rng):
     return rng.randrange(1, N - 1)
 
 
+def limb_structured(rng, count, maxbits=256):
+    """Values whose machine-word limbs (64/32/16/8 bits) have a regular shape: low or high part of
+    every limb zero, a single bit, all-ones / top-bit limbs.  Word-wise routines (comparison,
+    subtraction with a narrow accumulator, per-limb reductions, carries) treat these specially
+    although they are ordinary numbers.  At least one non-zero limb; value < 2^maxbits."""
+    out = []
+    while len(out) < count:
+        lb = rng.choice((64, 64, 32, 32, 16, 8))
+        n = maxbits // lb
+        kind = rng.choice(("lowzero", "lowzero", "highzero", "single", "pattern", "lowquarter"))
+        v = 0
+        for i in range(n):
+            if kind == "lowzero":
+                limb = rng.getrandbits(lb // 2) << (lb // 2)
+            elif kind == "lowquarter":
+                limb = rng.getrandbits(lb - lb // 4) << (lb // 4)
+            elif kind == "highzero":
+                limb = rng.getrandbits(lb // 2)
+            elif kind == "single":
+                limb = (1 << rng.randrange(lb)) if rng.random() < 0.3 else 0
+            else:
+                limb = rng.choice((0, (1 << lb) - 1, 1 << (lb - 1), 1, 1 << (lb // 2)))
+            if rng.random() < 0.25:
+                limb = 0
+            v |= limb << (i * lb)
+        if v:
+            out.append(v)
+    return out
+
+
 def script_of(cands, tail_valid=None, rng=None):
     """A reader script delivering the given 32-byte candidates, one per Read."""
     steps = [dict(d=b32(c) if isinstance(c, int) else c, err="") for c in cands]
